@@ -460,7 +460,7 @@ Proof.
   intros H. unfold connp_req_data.
   destruct (c_in_status c =? c_HTP_STREAM_STOP)%Z; [exact H|].
   destruct (c_in_status c =? c_HTP_STREAM_ERROR)%Z; [exact H|].
-  destruct (match c_in_tx c with None => negb (req_state_eqb (c_in_state c) REQ_IDLE) | Some _ => false end); [kp_go|].
+  destruct (match c_in_tx c with None => negb (req_state_eqb (c_in_state c) REQ_IDLE) && negb (c_in_status c =? c_HTP_STREAM_TUNNEL)%Z | Some _ => false end); [kp_go|].
   destruct ((len =? 0) && negb (c_in_status c =? c_HTP_STREAM_CLOSED)%Z)%bool; [exact H|].
   cbv zeta.
   match goal with |- context [if ?b then (?x, c_HTP_STREAM_TUNNEL) else _] =>
